@@ -2,44 +2,10 @@
 import lm
 import rules
 from lm import S, strip, cval, atoms
-from props.common import Ctx, has, guard_retvals, fmt_facts
+from props.common import Ctx, has, guard_retvals, fmt_facts, check_guarded_entry
 from units import AnalysisBroken
 
 LEVEL = "other"
-
-
-def check_guarded_entry(ck, X, fn, rule, needed, what, effect_filter=None):
-    """Every effect event of fn has the `needed` atoms [(atom,pol),retval] as must-facts (assignment kills only),
-    and each atom's bail-out returns the stated value."""
-    eff = X.effects()
-    evs = [ev for ev in fn.events() if eff.is_effect(ev) and (effect_filter is None or effect_filter(ev))]
-    ok = True
-    for (atom, pol), rv in needed:
-        site = fn.site("%s%s" % ("" if pol else "!", atom))
-        gs = guard_retvals(fn, atom, pol)
-        if not gs:
-            ck.ob(rule, site, False, "%s: no bail-out guard establishes %s%s" % (what, "" if pol else "!", atom))
-            ok = False
-            continue
-        bad_rv = [g for g in gs if rv is not None and g.retval != rv]
-        missing = [ev for ev in evs if not has(X.facts(fn, ev), atom, pol)]
-        # effects inside the bail-out arm itself are not allowed either
-        dirty = [g for g in gs if g.effects_in_bail]
-        if missing:
-            ev = missing[0]
-            ck.ob(rule, site, False, "%s: effect '%s' at line %d is reachable without the guard (facts %s)"
-                  % (what, S(ev.e) if ev.kind != "decl" else ev.e.get("name"), ev.line, fmt_facts(X.facts(fn, ev))))
-            ok = False
-        elif bad_rv:
-            ck.ob(rule, site, False, "%s: failing edge at line %d returns %s, documented %s" % (what, bad_rv[0].line, bad_rv[0].retval, rv))
-            ok = False
-        elif dirty:
-            ck.ob(rule, site, False, "%s: failing edge at line %d performs an effect before returning" % (what, dirty[0].line))
-            ok = False
-        else:
-            ck.ob(rule, site, True, "%s: guard at line %d dominates all %d effect(s), fails with %s" % (what, gs[0].line, len(evs), gs[0].retval),
-                  witness=[("drop_branch", fn.unit, fn.name, g.block) for g in gs])
-    return ok
 
 
 def run(ck, P):
